@@ -52,6 +52,7 @@ def compare_exact(rec, base_b, base_E, other_b, other_E, ctx, name_map=None, fro
 
 class C08(object):
     id = 'C08'
+    anchors = ('FixedMarginBusiness._GenerateEquations', 'Market._GenerateTermsLowLevel', 'TaxFlow._GenerateEquations', 'Model._GenerateEquations')
     title = 'Results do not depend on the order in which sectors are declared'
     rule = ('one case = one model specification built in the canonical declaration order and in 6 (quick) / 12 (thorough) '
             "random linear extensions of the constructor dependency order within each country (markets before a "
